@@ -28,6 +28,7 @@ func propC09(c *Ctx) {
 	c.ruleMemoCoverage("C09-MEMO-KEY-COVERS")
 	c.ruleC14ValidateFirst()
 	c.rulePhaseConstructor() // an error of a directive in an included file is located in that file
+	c.ruleNoRewrap()         // ... and is not told again as the message of another one (the rendered trace of the inner error would be part of it)
 	c.ruleTraceRecorder("C09-TRACE-RECORDER")
 	// a piece may end without a line break wherever a line may end
 	if m := c.E1Base(); m != nil {
